@@ -97,7 +97,7 @@ type errVal int
 
 func (e errVal) Error() string { return fmt.Sprintf("E%d", int(e)) }
 
-const tick = time.Millisecond
+const tick = 100 * time.Microsecond // one virtual tick: frequencies and intervals are sub-millisecond and not whole milliseconds
 
 // slog handler recording the errors pipe.StdErr logs
 type logRec struct{ c *calls }
